@@ -7,7 +7,8 @@ Line-protocol handlers for the solver bridge (property C20).
   nostart <iface 0|1|2>                                          → the interface function when Popen raised OSError
   select  <0 | 1 cmd> <0 | 1 sameas> L(installed names)          → selectInterface
 
-  frun    <variant 0 current|1 patched> <iface> L(schedule: 0 ok, 1 OSError, 2 other) <rmIn> <rmOut> <hasFile>
+  fvariant                                                         → which snapshot the current source is (0 current, 1 patched, none)
+  frun    <variant 0 current|1 patched|2 = the one the source matches> <iface> L(schedule: 0 ok, 1 OSError, 2 other) <rmIn> <rmOut> <hasFile>
           L(stdout bytes) L(file bytes) <exit>                     → runProg (one interface function under a fault schedule)
   fsolve  <variant> <0 | 1 cmd> <0 | 1 sameas> L(installed names) L(schedule) <rmIn> <rmOut> <hasFile>
           L(stdout bytes) L(file bytes) <exit>                     → solveW (the same solver behaviour behind every command)
@@ -81,7 +82,9 @@ def sched : P (List Fault) := do
   | none => failure
 
 def variantOfInt : Int → Option Variant
-  | 0 => some .current | 1 => some .patched | _ => none
+  | 0 => some .current | 1 => some .patched
+  | 2 => some (sourceVariant.getD .current)   -- the reviewed snapshot that the regenerated skeletons match (else: current)
+  | _ => none
 
 def beh : P Beh := do
   let rmIn ← bool; let rmOut ← bool; let hasFile ← bool
@@ -102,6 +105,8 @@ def handle (opname : String) (a : Args) : Option String :=
       let cmd ← optStr; let sameas ← optStr
       let inst ← listOf (do let s ← chars; pure (String.ofList s))
       pure (fmtExcept fmtSelect (selectInterface cmd sameas inst))) a
+  | "fvariant" => run (pure (match sourceVariant with
+      | some .current => "OK 0" | some .patched => "OK 1" | none => "ERR none")) a
   | "frun" => run (do
       let v ← int; let i ← int
       let sc ← sched; let b ← beh
